@@ -162,7 +162,8 @@ impl Machine for Gt {
         let widx = |t: i64| t / WINDOW;
         let (res, expect): (std::result::Result<std::result::Result<(), ()>, String>, bool) = match *a {
             GAct::Mint(u, amt) => {
-                let ok = s.r.total_minted.checked_add(amt).is_some();
+                // rejected when the new total, or the minting cost at the new total, is not representable
+                let ok = s.r.total_minted.checked_add(amt).and_then(ref_cost).is_some();
                 let r = mc_core::catch(|| hv::gt_mint_to(hv::gt_mut(&mut n.store), &mut n.users[u], amt).map_err(|_| ()));
                 if ok {
                     n.r.balances[u] += amt;
